@@ -3,6 +3,7 @@ package harness
 import (
 	"encoding/json"
 	"fmt"
+	"reflect"
 	"testing"
 
 	"github.com/cilium/statedb/part"
@@ -45,6 +46,59 @@ func kvItems(seq func(func(string, int) bool), take int) [][]any {
 		}
 	}
 	return out
+}
+
+// richVal is a value type whose JSON/YAML decoding is sensitive to what the target already holds (slices are
+// decoded in place, maps merged, absent fields kept): the round trip of a map is also made with these values,
+// derived from the int values of the map under test.
+type richVal struct {
+	A []int          `json:"a" yaml:"a"`
+	M map[string]int `json:"m,omitempty" yaml:"m,omitempty"`
+	P *int           `json:"p,omitempty" yaml:"p,omitempty"`
+	S string         `json:"s,omitempty" yaml:"s,omitempty"`
+}
+
+func richOf(v int) richVal {
+	r := richVal{A: []int{v, v + 1, v * 2}[:1+((v%3)+3)%3]}
+	if v%2 == 0 {
+		r.M = map[string]int{"x": v, fmt.Sprint("k", v): 1}
+	}
+	if v%3 == 0 {
+		p := v
+		r.P = &p
+	}
+	if v%4 == 1 {
+		r.S = fmt.Sprint("s", v)
+	}
+	return r
+}
+
+// richRoundTrip encodes and decodes m with rich values and reports whether every entry came back unchanged.
+func richRoundTrip(m part.Map[string, int], enc func(any) ([]byte, error), dec func([]byte, any) error) bool {
+	rm := part.Map[string, richVal]{}
+	n := 0
+	for k, v := range m.All() {
+		rm = rm.Set(k, richOf(v))
+		n++
+	}
+	bs, err := enc(rm)
+	if err != nil {
+		panic(err)
+	}
+	var rm2 part.Map[string, richVal]
+	if err := dec(bs, &rm2); err != nil {
+		panic(err)
+	}
+	if rm2.Len() != n {
+		return false
+	}
+	for k, v := range m.All() {
+		got, ok := rm2.Get(k)
+		if !ok || !reflect.DeepEqual(got, richOf(v)) {
+			return false
+		}
+	}
+	return true
 }
 
 func (st *mapState) exec(op mapOp) Ev {
@@ -105,7 +159,8 @@ func (st *mapState) exec(op mapOp) Ev {
 				panic(err)
 			}
 			st.maps[op.J] = m2
-			return Ev{"op": "mjson", "i": op.I, "j": op.J, "eq": m.SlowEqual(m2) && m2.SlowEqual(m)}
+			return Ev{"op": "mjson", "i": op.I, "j": op.J, "eq": m.SlowEqual(m2) && m2.SlowEqual(m) &&
+				richRoundTrip(m, json.Marshal, json.Unmarshal)}
 		case "myaml":
 			bs, err := yaml.Marshal(m)
 			if err != nil {
@@ -116,7 +171,8 @@ func (st *mapState) exec(op mapOp) Ev {
 				panic(err)
 			}
 			st.maps[op.J] = m2
-			return Ev{"op": "myaml", "i": op.I, "j": op.J, "eq": m.SlowEqual(m2) && m2.SlowEqual(m)}
+			return Ev{"op": "myaml", "i": op.I, "j": op.J, "eq": m.SlowEqual(m2) && m2.SlowEqual(m) &&
+				richRoundTrip(m, yaml.Marshal, yaml.Unmarshal)}
 		}
 	case "meqkeys", "mslow":
 		a, ok := st.maps[op.I]
